@@ -170,10 +170,12 @@ def _groups(q):
 def originate(items, pq):
     """In THIS process: build every (query, form), record what it shows here, pickle it."""
     out = []
-    for q, form in items:
-        rec = {"id": f"{q}|{form}", "q": q, "form": form, "sort_rows": sp.flags(q).get("sort_rows", False)}
+    for it in items:
+        q, form = it[0], it[1]
+        var = it[2] if len(it) > 2 else None
+        rec = {"id": f"{q}|{var}|{form}", "q": q, "v": var, "form": form, "sort_rows": sp.flags(q).get("sort_rows", False)}
         try:
-            obj = _form(sp.build(q, pq), form)
+            obj = _form(sp.build(q, pq, var), form)
             rec["expected"] = sp.observe_loaded(obj, rec["sort_rows"])
             rec["blob"] = base64.b64encode(pickle.dumps(obj)).decode()
         except Exception as e:  # noqa: BLE001
@@ -193,7 +195,7 @@ def ship(recs, pq):
             continue
         g = _groups(r["q"])
         for b in batches:
-            if len(b["items"]) < 7 and r["q"] not in b["qs"] and not (g & b["groups"]):
+            if len(b["items"]) < 9 and r["q"] not in b["qs"] and not (g & b["groups"]):
                 b["items"].append(r)
                 b["qs"].add(r["q"])
                 b["groups"] |= g
@@ -227,7 +229,7 @@ def compare(rec, got):
 
 def _failure(rec, field, desc):
     return Failure(sig={"kind": "pickle", "form": rec["form"], "op": _op_of(rec["q"])},
-                   case={"q": rec["q"], "form": rec["form"]},
+                   case={"q": rec["q"], "v": rec.get("v"), "form": rec["form"]},
                    detail=f"{rec['q']} [{rec['form']}] {desc}")
 
 
@@ -236,7 +238,15 @@ def support(ctx, broken):
     pq = sp.tmp_parquet()
     # the fully-filtered parquet reads are left to C15 (their answer depends on what the process planned before: D18)
     qids = [q for q in sp.POOL if "pq_none" not in sp.flags(q).get("tags", [])]
-    items = [(q, form) for form in FORMS for q in qids]
+    if ctx.quick:
+        # a slice of 32 queries: everything touching a cache (sorts, set_index, parquet, repartition-by-size, flaky, disk)
+        # plus a seed-dependent half of the rest
+        tagged = [q for q in qids if sp.flags(q).get("tags")]
+        rest = [q for q in qids if q not in tagged]
+        qids = tagged + rest[ctx.seed % 2::2][: max(0, 32 - len(tagged))]
+    items = [(q, form, None) for form in FORMS for q in qids]
+    if not ctx.quick:
+        items += [(q, form, i) for form in FORMS for q in qids for i in range(len(sp.POOL[q][2]))]
     recs = originate(items, pq)
     got, nchildren = ship(recs, pq)
     sup.distribution["fresh_interpreters"] = nchildren
@@ -259,7 +269,7 @@ def support(ctx, broken):
 
 def replay(case):
     pq = sp.tmp_parquet()
-    recs = originate([(case["q"], case["form"])], pq)
+    recs = originate([(case["q"], case["form"], case.get("v"))], pq)
     got, _ = ship(recs, pq)
     bad = compare(recs[0], got.get(recs[0]["id"], {"load_error": "no answer"}))
     return _failure(recs[0], *bad) if bad else None
